@@ -3,15 +3,22 @@
 //!
 //! Harness metadata lives in `//@` comment lines directly above each harness (or
 //! macro invocation) and is read by /verif/check.
-#![feature(allocator_api)]
+#![cfg_attr(kani, feature(allocator_api))]
 #![allow(static_mut_refs, clippy::all, dead_code, unused_imports, unused_macros)]
 
 pub mod known;
 pub mod stubs;
 pub mod ref_annexb;
+pub mod bx;
 
+#[cfg(all(kani, feature = "c12"))]
+pub mod p_c12;
 #[cfg(all(kani, feature = "c14"))]
 pub mod p_c14;
+#[cfg(all(kani, feature = "c19"))]
+pub mod p_c19;
 
 #[cfg(kani)]
 pub mod playback_gen;
+#[cfg(all(kani, feature = "x"))]
+pub mod p_x;
